@@ -20,11 +20,12 @@ def outc1? : Sexp → Option Outc
   | .list [.atom "err", n] => n.nat?.map .err
   | _ => none
 
-/-- `good | raising | raisingBad | oneShot | unsub j | resub j | reenter (val v) | reenter (err e)`; `0` / `1` = the old spelling -/
+/-- `good | raising | raisingBad | raisingWorse | oneShot | unsub j | resub j | reenter (val v) | reenter (err e)`; `0` / `1` = the old spelling -/
 def beh? : List Sexp → Option Beh
   | [.atom "good"] | [.atom "0"] => some .good
   | [.atom "raising"] | [.atom "1"] => some .raising
   | [.atom "raisingBad"] => some .raisingBad
+  | [.atom "raisingWorse"] => some .raisingWorse
   | [.atom "oneShot"] => some .oneShot
   | [.atom "unsub", n] => n.nat?.map .unsub
   | [.atom "resub", n] => n.nat?.map .resub
@@ -109,7 +110,7 @@ def handle (id : Nat) (hdr : List Sexp) (body : List Sexp) : String :=
 
 /-! ### mode `futsubs`: notification rounds of futures that are NOT kinds of the one-future model (batch items, batches,
   DebugBatchItem, AsyncTasks that block) - no theorem speaks about how these complete; each round is judged by the
-  same clause `notifiedAll` (the one `spec` uses and `C10_spec_holds_partial` is about) plus the plain
+  same clause `notifiedAll` (the one `spec` uses and `C10_spec_holds` is about) plus the plain
   statements "a second set raises FutureIsAlreadyComputed" and "value() / call report the outcome".
 
   (fut) (sub id beh...)* (round outc (cbs) second-set-result read1 read2 expected-outc)*  per watched future  -/
